@@ -127,6 +127,30 @@ class Models:
                         kwargs[k.arg] = k.value
         return FieldInfo(st.target.id, c, st, st.annotation, shape, has_default, default, factory, kwargs)
 
+    def _annotated_meta_with_modules(self, mod: Module, ann: ast.expr, depth=0):
+        """[(metadata expression, module it is written in)] -- like annotated_meta, keeping where each expression's names resolve"""
+        if depth > 6:
+            return []
+        if isinstance(ann, ast.Constant) and isinstance(ann.value, str):
+            try:
+                return self._annotated_meta_with_modules(mod, ast.parse(ann.value, mode="eval").body, depth + 1)
+            except SyntaxError:
+                return []
+        if isinstance(ann, (ast.Name, ast.Attribute)):
+            d = dotted_name(ann)
+            s = self.index.resolve(mod, d) if d else None
+            if s is not None and s.kind == "assign" and s.module is not None and getattr(s.node, "value", None) is not None:
+                return self._annotated_meta_with_modules(s.module, s.node.value, depth + 1)
+            return []
+        if isinstance(ann, ast.Subscript):
+            head = (dotted_name(ann.value) or ast.unparse(ann.value)).split(".")[-1]
+            args = ann.slice.elts if isinstance(ann.slice, ast.Tuple) else [ann.slice]
+            if head == "Annotated":
+                return self._annotated_meta_with_modules(mod, args[0], depth + 1) + [(a, mod) for a in args[1:]]
+            if head == "Optional":
+                return self._annotated_meta_with_modules(mod, args[0], depth + 1)
+        return []
+
     def annotated_meta(self, mod: Module, ann: ast.expr, depth=0) -> List[ast.expr]:
         """metadata expressions of every Annotated[...] the annotation is (after following module-level aliases) or contains at top level"""
         if depth > 6:
@@ -251,6 +275,23 @@ class Models:
                                     mode = k.value.value
                             fields = tuple(a.value for a in call.args if isinstance(a, ast.Constant)) if short == "field_validator" else ()
                             out.append(ValidatorInfo(st.targets[0].id, "field" if short == "field_validator" else "model", mode, fields, defs_[-1], c))
+                    continue
+                if isinstance(st, ast.AnnAssign) and isinstance(st.target, ast.Name) and not st.target.id.startswith("_"):
+                    # validators carried by the annotation: Annotated[T, AfterValidator(f), ...] (directly or through a module-level alias)
+                    # run on the field like @field_validator(<field>) functions, in the order they are listed
+                    for meta, mmod in self._annotated_meta_with_modules(c.module, st.annotation):
+                        if isinstance(meta, ast.Call) and (dotted_name(meta.func) or "").split(".")[-1] in ("AfterValidator", "BeforeValidator", "PlainValidator") \
+                                and len(meta.args) == 1 and isinstance(meta.args[0], (ast.Name, ast.Attribute)):
+                            try:
+                                sy = self.index.resolve_expr(mmod, meta.args[0])
+                            except Exception:  # noqa: BLE001
+                                sy = None
+                            if sy is not None and sy.kind == "func" and isinstance(sy.node, ast.FunctionDef) and sy.module is not None:
+                                short_ = (dotted_name(meta.func) or "").split(".")[-1]
+                                mode_ = {"AfterValidator": "after", "BeforeValidator": "before", "PlainValidator": "plain"}[short_]
+                                if hasattr(self.index, "node_home"):
+                                    self.index.node_home[id(sy.node)] = sy.module
+                                out.append(ValidatorInfo(sy.node.name, "field", mode_, (st.target.id,), sy.node, c))
                     continue
                 if not isinstance(st, ast.FunctionDef):
                     continue
